@@ -188,3 +188,19 @@ Lemma w_rename_drop_fails :
   gen_plan (fst w_rename_drop) (snd w_rename_drop) = Ok [[SRenameTable "t" "t2"]; [SAlterDropIndex "t2" "uq_t2__a"]] /\
   migration_error (fst w_rename_drop) (snd w_rename_drop) = Some "M5a cannot drop index: it does not exist (1091)".
 Proof. vm_compute. repeat split; reflexivity. Qed.
+
+(* C01-shadowed-inline-declaration seen from MySQL: the promoted inline foreign key is never created *)
+Definition w_orphan :=
+  ([T_user; T_plain "post"],
+   [AddColumn "post" (mkCol "user_id" (TSimple Integer) true None None None None None (Some (FKStr "user.id"))) None;
+    AddConstraint "post" (CForeignKey (Some "main") ["user_id"] "user" ["id"] None None)]).
+Lemma w_orphan_refutes : refutes (fst w_orphan) (snd w_orphan) known_C04_inline_orphan.
+Proof. vm_compute. repeat split; reflexivity. Qed.
+
+(* D16, further shape: one constraint added twice by a plan *)
+Definition w_twice :=
+  ([mkTable "t" None [pcol "id" (TSimple Integer) false; pcol "a" (TSimple Integer) true] [CPrimaryKey false ["id"]]],
+   [AddConstraint "t" (CIndex None ["a"]); AddConstraint "t" (CIndex None ["a"])]).
+Lemma w_twice_refutes : refutes (fst w_twice) (snd w_twice) known_C04_derived_name_collision
+  /\ migration_error (fst w_twice) (snd w_twice) = Some "M4a duplicate key name (1061)".
+Proof. vm_compute. repeat split; reflexivity. Qed.
